@@ -1,9 +1,9 @@
 package main
 
 import (
-	"go/types"
 	"encoding/json"
 	"fmt"
+	"go/types"
 	"os"
 	"path/filepath"
 	"sort"
